@@ -245,7 +245,11 @@ pub fn gen_edit(r: &mut Rng, class: &str, m: &Model) -> Option<(Model, String)> 
         }
         "add_field" | "remove_field" | "rename_field" | "field_type" | "field_option_toggle" | "field_pub_toggle"
         | "field_serde_rename" | "field_serde_rename_identity" | "struct_rename_all" | "field_serde_skip" | "add_validator" | "change_validator" => {
-            let names = serde_struct_names(m, true);
+            let mut names = serde_struct_names(m, true);
+            if class == "field_serde_rename_identity" {
+                // only where a rename_all would otherwise transform the (multi-word) name
+                names.retain(|n| m.structs().iter().any(|s| &s.name == n && s.rename_all.as_deref().map(|x| x != "snake_case").unwrap_or(false)));
+            }
             let n = pick(r, &names)?;
             let s = m2.struct_mut(&n)?;
             let live: Vec<usize> = (0..s.fields.len()).filter(|k| !s.fields[*k].skip).collect();
